@@ -113,10 +113,35 @@ def scale_of(desc):
         return desc["ro"]
     if k == "polygon":
         vx, vy = desc["vx"], desc["vy"]
-        return max(max(vx) - min(vx), max(vy) - min(vy), 1e-3) / 2.0
+        mag = max(max(abs(v) for v in vx), max(abs(v) for v in vy))
+        return max(max(vx) - min(vx), max(vy) - min(vy), 1e-3 * mag, 1e-12) / 2.0
     if k == "range":
-        return max(abs(desc["hi"] - desc["lo"]) / 2.0, 1e-3)
+        return max(abs(desc["hi"] - desc["lo"]) / 2.0, 1e-3 * max(abs(desc["hi"]), abs(desc["lo"])), 1e-12)
     raise ValueError(k)
+
+
+def magnitude_of(desc):
+    """Largest absolute coordinate that the region's own description mentions (workload-side scale of rounding)."""
+    k = desc["k"]
+    if k == "polygon":
+        return max(max(abs(v) for v in desc["vx"]), max(abs(v) for v in desc["vy"]))
+    if k == "rect":
+        return max(abs(desc[q]) for q in ("xmin", "xmax", "ymin", "ymax"))
+    if k == "range":
+        return max(abs(desc["lo"]), abs(desc["hi"]))
+    return max(abs(desc["xc"]), abs(desc["yc"])) + scale_of(desc)
+
+
+def scaled(desc, f):
+    """The descriptor under the similarity p -> f * p."""
+    d = dict(desc)
+    for q in ("xmin", "xmax", "ymin", "ymax", "xc", "yc", "rx", "ry", "r", "ri", "ro", "lo", "hi"):
+        if q in d:
+            d[q] = d[q] * f
+    for q in ("vx", "vy"):
+        if q in d:
+            d[q] = [v * f for v in d[q]]
+    return d
 
 
 def centre_of(desc):
